@@ -122,13 +122,17 @@ def marshal_body(sig, vals, le=True, sites=None):
 
 
 def build_message(mtype, serial, fields=None, sig='', body=(), flags=0, le=True, raw_fields=None,
-                  nfds=None, body_bytes=None, version=1, sites=None):
+                  nfds=None, body_bytes=None, version=1, sites=None, raw_first=False):
     """fields: dict code -> value (typed per FIELD_SIG); raw_fields: list of (code, sig, value) appended
     after (forged / unknown fields). Field order: as given in `fields` (dict order), then raw_fields."""
     bsites = []
     if body_bytes is None:
         body_bytes = marshal_body(sig, body, le, bsites)
     fl = []
+    if raw_first:
+        for code, s, v in (raw_fields or []):
+            fl.append((code, s, v))
+        raw_fields = []
     for code, v in (fields or {}).items():
         fl.append((code, FIELD_SIG[code], v))
     if sig:
